@@ -68,10 +68,11 @@ type tconn interface {
 }
 
 type tconcAux struct {
-	halfSilent bool
-	preloaded  int
-	mode       int
-	otherErrs  []string
+	hsInProgram bool
+	halfSilent  bool
+	preloaded   int
+	mode        int
+	otherErrs   []string
 }
 
 func scTConc(r *Run) {
@@ -138,6 +139,7 @@ func scTConc(r *Run) {
 			return true
 		}
 	}
+	aux.hsInProgram = handshakeInProgram
 	if !handshakeInProgram {
 		if err := tc.C.Handshake(); err != nil {
 			r.Violate("C17/nofault/handshake-failed", "%v", err)
@@ -600,6 +602,53 @@ func tconcAfter(r *Run) {
 	}
 	if len(closeCodes) > 1 {
 		r.Violate("C17/close-results-differ", "Close callers got different results")
+	}
+	// A timeout needs a deadline.  On a connection whose handshake was complete before the program began, a
+	// read that returns a timeout at instant T must be justified by a SetReadDeadline/SetDeadline call with a
+	// non-zero instant <= T that was invoked before the read returned and was not certainly replaced (by a
+	// successful deadline call that began after it had returned and had itself returned before the read was
+	// invoked).  (While a handshake is part of the program its own timeout is a legitimate source.)
+	if !aux.hsInProgram && (aux.mode == 0 || aux.mode == 2) && !r.Failed() {
+		isDl := func(op int) bool { return op == tSetReadDeadline || op == tSetDeadline }
+		for _, e := range evs {
+			if (e.Op != tRead && e.Op != tReadMsg) || e.Err != ErrTimeout {
+				continue
+			}
+			r.Obligation(1)
+			justified := false
+			for _, d := range evs {
+				if !isDl(d.Op) || d.Arg == 0 || d.Call > e.Ret {
+					continue
+				}
+				at := d.At + d.Arg*int64(time.Millisecond)
+				if d.Arg < 0 {
+					at = d.At - int64(time.Second)
+				}
+				if at > e.RetAt {
+					continue
+				}
+				replaced := false
+				for _, d2 := range evs {
+					if isDl(d2.Op) && d2.Err == ErrNone && d2.Call > d.Ret && d2.Ret < e.Call {
+						replaced = true
+						break
+					}
+				}
+				if !replaced {
+					justified = true
+					break
+				}
+			}
+			if !justified {
+				sort.Slice(evs, func(i, j int) bool { return evs[i].Call < evs[j].Call })
+				lines := []string{}
+				for _, x := range evs {
+					lines = append(lines, fmt.Sprintf("[%d,%d] t=%.3f..%.3fms g%d %s(%d) -> out=%d err=%s", x.Call, x.Ret, float64(x.At-evs[0].At)/1e6, float64(x.RetAt-evs[0].At)/1e6, x.G, tOpNames[x.Op], x.Arg, x.Out, []string{"nil", "EOF", "timeout", "cancelled", "other", "bufoverflow", "closedconn"}[x.Err]))
+				}
+				r.Violate("C17/timeout-without-deadline", "g%d %s on an established connection returned a timeout although no read deadline that was in force during the call had been reached when it returned:\n  %s", e.G, tOpNames[e.Op], strings.Join(lines, "\n  "))
+				return
+			}
+		}
 	}
 	if aux.mode == 3 || aux.mode == 1 {
 		return
